@@ -1,3 +1,2 @@
--- This module serves as the root of the `PC` library.
--- Import modules here that should be built as part of the library.
-import PC.Basic
+-- root of the library: every property module (imports pull in models, specs, ties)
+import PC.Props.C18
